@@ -5,7 +5,8 @@ CONSTANTS
   MaxMut = 0
   MaxTrav = 0
   HiddenSets = {{}}
+CONSTANT ClassMaps <- TraceMaps
 CONSTRAINT TMark
-INVARIANTS ExactlyOnceNoMutation StableExactlyOnce StrictlyIncreasing NoDuplicates EndsWithEmptyCursor IndexFresh PageShape IteratorEqualsManual
+INVARIANTS ExactlyOnceNoMutation StableExactlyOnce StrictlyIncreasing NoDuplicates EndsWithEmptyCursor IndexFresh EndClassExplicit PageShape IteratorEqualsManual
 POSTCONDITION TAccepted
 CHECK_DEADLOCK FALSE
